@@ -188,6 +188,24 @@ func buildSens(c sensCase) *doctree.Node {
 	obj2.Set("properties", obj().Set("id", obj().Set("type", str("string"))).Set("kind", strEnum()))
 	obj3 := obj().Set("type", str("object")).Set("description", str(S(2)))
 	obj3.Set("properties", obj().Set("id", obj().Set("type", str("string"))).Set("kind", strEnum()).Set("more", obj().Set("type", str("integer"))))
+	// bits 26-28: the extensions ogen itself reads, written identically in two places so that the alias
+	// and merge-key spellings reach them (`x-ogen-properties: *a`), next to scalar-valued ones
+	if c.bit(26) {
+		xp := func() *doctree.Node {
+			return obj().Set("id", obj().Set("name", str("UUID"))).Set("kind", obj().Set("name", str("KindOf")))
+		}
+		obj2.Set("x-ogen-properties", xp())
+		obj3.Set("x-ogen-properties", xp())
+	}
+	if c.bit(27) {
+		tags := func() *doctree.Node { return obj().Set("db", str("col")).Set("validate", str("required,min=1")) }
+		obj2.Get("properties").Get("id").Set("x-oapi-codegen-extra-tags", tags())
+		obj3.Get("properties").Get("id").Set("x-oapi-codegen-extra-tags", tags())
+		obj3.Get("properties").Get("more").Set("x-oapi-codegen-extra-tags", tags())
+	}
+	if c.bit(28) {
+		obj3.Set("x-ogen-name", str("RenamedThird"))
+	}
 	// Twin is written before Obj2 and is identical to it, so with aliasing on Obj2
 	// becomes "*a"; Deep points INTO Obj2 with a JSON pointer.
 	twin := obj2.Clone()
